@@ -352,3 +352,70 @@ func TestVerifBounded_C17_Manager(t *testing.T) {
 		t.Fatalf("%d mismatches", fails)
 	}
 }
+
+// Healthy waiters when healthy becomes unreachable without any service being terminal yet: one service is held in its
+// stopping function (it was stopped while starting, or it stopped from Running while another one is still starting).
+func TestVerifBounded_C17_ManagerHealthyUnreachable(t *testing.T) {
+	cases, fails := 0, 0
+	report := func(id, msg string) {
+		fails++
+		if fails <= 5 {
+			fmt.Printf("BOUNDED-VIOLATION case=%s %s\n", id, msg)
+		}
+	}
+	for n := 1; n <= 3; n++ {
+		for _, when := range []string{"stopped-while-starting", "stopped-from-running"} {
+			if when == "stopped-from-running" && n == 1 {
+				continue // a single Running service makes the manager healthy first
+			}
+			cases++
+			id := fmt.Sprintf("c17-mgr-unreachable:n=%d:%s", n, when)
+			releaseStart := make(chan struct{})
+			releaseStop := make(chan struct{})
+			var svcs []Service
+			// service 0 is the one that ends up held in Stopping; the others stay in Starting until released
+			svcs = append(svcs, NewBasicService(func(ctx context.Context) error {
+				if when == "stopped-while-starting" {
+					<-ctx.Done() // StopAsync during a (successful) start
+				}
+				return nil
+			}, func(ctx context.Context) error { <-ctx.Done(); return nil }, func(error) error { <-releaseStop; return nil }))
+			for i := 1; i < n; i++ {
+				svcs = append(svcs, NewBasicService(func(context.Context) error { <-releaseStart; return nil }, func(ctx context.Context) error { <-ctx.Done(); return nil }, nil))
+			}
+			m, err := NewManager(svcs...)
+			if err != nil {
+				t.Fatal(err)
+			}
+			_ = m.StartAsync(context.Background())
+			if when == "stopped-from-running" {
+				_ = svcs[0].AwaitRunning(context.Background())
+			}
+			svcs[0].StopAsync()
+			// wait until the manager has observed the Stopping transition
+			deadline := time.Now().Add(2 * time.Second)
+			for time.Now().Before(deadline) && len(m.ServicesByState()[Stopping]) == 0 {
+				time.Sleep(time.Millisecond)
+			}
+			if len(m.ServicesByState()[Stopping]) != 1 {
+				report(id+":setup", "service 0 was not observed in Stopping")
+			} else {
+				ctx, cancel := context.WithTimeout(context.Background(), 500*time.Millisecond)
+				err := m.AwaitHealthy(ctx)
+				timedOut := ctx.Err() != nil
+				cancel()
+				if err == nil || timedOut {
+					report(id, fmt.Sprintf("a service is Stopping (healthy can no longer be reached) but AwaitHealthy returned %v (timed out: %v) instead of failing at once", err, timedOut))
+				}
+			}
+			close(releaseStop)
+			close(releaseStart)
+			m.StopAsync()
+			_ = m.AwaitStopped(context.Background())
+		}
+	}
+	fmt.Printf("BOUNDED-CASES name=C17_ManagerHealthyUnreachable n=%d distinct=%d bound=managers of 1..3 services, one service held in its stopping function (stopped while starting / from Running) while no service is terminal\n", cases, cases)
+	if fails > 0 {
+		t.Fatalf("%d mismatches", fails)
+	}
+}
